@@ -173,9 +173,74 @@ def definition_changes(repo, rel):
         if "#" not in k and f"{rel}::{k}" in cur_helpers and name not in ref_ids:
             continue
         if name not in ref_ids and not (name.startswith("__") and name.endswith("__")):
-            continue
+            # new API under a name nobody could have used -- unless binding it RUNS something: a module- or class-level
+            # statement executes at import (wave m: `for _name in ("Moon", "Sun"): get_frame(_name)` at the end of
+            # solarsystem.py registered two more centres called Moon and Sun; `X = Frame("EME2000", ...)` would re-register)
+            if "#" not in k or _binding_is_effect_free(repo, rel, k):
+                continue
         out.append(("added", k))
     return out
+
+
+_PURE_ROOTS = {"np", "numpy", "math"}
+
+
+def _expr_effect_free(n):
+    if isinstance(n, (ast.Constant, ast.Name)):
+        return True
+    if isinstance(n, ast.Attribute):
+        return _expr_effect_free(n.value)
+    if isinstance(n, (ast.Tuple, ast.List, ast.Set)):
+        return all(_expr_effect_free(e) for e in n.elts)
+    if isinstance(n, ast.Dict):
+        return all(e is None or _expr_effect_free(e) for e in n.keys) and all(_expr_effect_free(e) for e in n.values)
+    if isinstance(n, ast.BinOp):
+        return _expr_effect_free(n.left) and _expr_effect_free(n.right)
+    if isinstance(n, ast.UnaryOp):
+        return _expr_effect_free(n.operand)
+    if isinstance(n, ast.Subscript):
+        return _expr_effect_free(n.value) and _expr_effect_free(n.slice)
+    if isinstance(n, ast.Call):
+        f = n.func
+        root = f
+        while isinstance(root, ast.Attribute):
+            root = root.value
+        pure = (isinstance(root, ast.Name) and root.id in _PURE_ROOTS and isinstance(f, ast.Attribute)) or \
+               (isinstance(f, ast.Name) and f.id in ("timedelta", "datetime", "float", "int", "str", "tuple", "frozenset", "len", "abs", "min", "max", "round"))
+        return pure and all(_expr_effect_free(a) for a in n.args) and all(_expr_effect_free(kw.value) for kw in n.keywords)
+    return False
+
+
+def _binding_is_effect_free(repo, rel, key):
+    """Every module- / class-level statement that binds the name of `key` ('<module>#X' or 'K.<class>#X') is a plain
+    assignment of an expression that runs no package code."""
+    name = key.split("#")[-1]
+    scope = key.split("#")[0]
+    tree = ast.parse(repo.modules[rel].source)
+    if scope == "<module>":
+        body = tree.body
+    else:
+        cls_path = scope[:-len(".<class>")].split(".")
+        body = tree.body
+        for cn in cls_path:
+            nxt = [c for c in body if isinstance(c, ast.ClassDef) and c.name == cn]
+            if not nxt:
+                return False
+            body = nxt[-1].body
+    found = False
+    for st in body:
+        if isinstance(st, (ast.FunctionDef, ast.AsyncFunctionDef, ast.ClassDef, ast.Import, ast.ImportFrom)):
+            continue
+        binds = {t.id for t in ast.walk(st) if isinstance(t, ast.Name) and isinstance(t.ctx, ast.Store)}
+        if name not in binds:
+            continue
+        found = True
+        if isinstance(st, ast.Assign) and all(isinstance(t, ast.Name) for t in st.targets) and _expr_effect_free(st.value):
+            continue
+        if isinstance(st, ast.AnnAssign) and isinstance(st.target, ast.Name) and (st.value is None or _expr_effect_free(st.value)):
+            continue
+        return False
+    return found
 
 
 def is_reference_tree(repo):
